@@ -66,6 +66,7 @@ func init() {
 			&vexplore.Scenario{Name: "fail-no-peers-with-busy-peers", Mode: "enum", Reset: kit.ResetGlobals, Body: c18.FailNoPeers, NeedCounters: []string{"one-of-two-peers-leaves"}},
 			&vexplore.Scenario{Name: "pair-push-pull-every-length-over-stream-pipes", Mode: "enum", Reset: kit.ResetGlobals, Body: func() { c16.EveryLength(map[bool]int{false: 1200, true: 9000}[tier == "thorough"]) },
 				NeedCounters: []string{"every-length-written-exact", "every-length-received-exact"}},
+			&vexplore.Scenario{Name: "inproc-one-message-object-sent-twice", Mode: "enum", Reset: kit.ResetGlobals, Body: sentTwice, NeedCounters: []string{"second-copy-intact"}},
 			&vexplore.Scenario{Name: "large-bodies-byte-api-retained", Mode: "enum", Reset: kit.ResetGlobals, Body: largeBodies, NeedCounters: []string{"large-bodies-intact"}},
 		)
 		for _, k := range []struct {
@@ -102,6 +103,71 @@ func setQ(s mangos.Socket, q int) {
 			kit.Failf("qlen-rejected", "SetOption(%s,%d): %s", o, q, kit.ErrName(err))
 		}
 	}
+}
+
+// sentTwice: the sender keeps a reference (Clone) to a message and sends the same object twice with
+// SendMsg - twice to its PAIR peer, or to two PUSH sockets' peers - over inproc.  Each receiver
+// takes its message with RecvMsg and overwrites it in place before the next copy is sent / taken:
+// every delivery has the bytes that were sent.
+func sentTwice() {
+	kind := kit.ChooseFree(3) // 0 pair, 1 xpair, 2 push -> two pulls
+	sz := []int{0, 5, 300, 70000}[kit.ChooseFree(4)]
+	body := make([]byte, sz)
+	for i := range body {
+		body[i] = byte('a' + i%26)
+	}
+	var senders, receivers []mangos.Socket
+	mk := func(c ctor) mangos.Socket {
+		s, err := c()
+		must(err, "NewSocket")
+		return s
+	}
+	switch kind {
+	case 0, 1:
+		c := []ctor{pair.NewSocket, xpair.NewSocket}[kind]
+		a, b := mk(c), mk(c)
+		must(b.Listen("inproc://c02-twice"), "Listen")
+		must(a.Dial("inproc://c02-twice"), "Dial")
+		senders, receivers = []mangos.Socket{a, a}, []mangos.Socket{b, b}
+	default:
+		for i := 0; i < 2; i++ {
+			p, l := mk(push.NewSocket), mk(pull.NewSocket)
+			addr := fmt.Sprintf("inproc://c02-twice-%d", i)
+			must(l.Listen(addr), "Listen")
+			must(p.Dial(addr), "Dial")
+			senders, receivers = append(senders, p), append(receivers, l)
+		}
+	}
+	kit.Quiesce()
+	m := mangos.NewMessage(sz)
+	m.Body = append(m.Body, body...)
+	m.Clone() // the second send's reference
+	for i := 0; i < 2; i++ {
+		i := i
+		sc := kit.Start("SendMsg", func() (interface{}, error) { return nil, senders[i].SendMsg(m) })
+		rc := kit.Start("Recv", func() (interface{}, error) { return kit.Recv(receivers[i]) })
+		kit.Quiesce()
+		if !sc.Done() || sc.Err != nil || !rc.Done() || rc.Err != nil {
+			kit.Failf("send-stuck", "send %d of one message object: SendMsg done=%v %s, Recv done=%v %s", i+1, sc.Done(), kit.ErrName(sc.Err), rc.Done(), kit.ErrName(rc.Err))
+		}
+		if got := rc.Val.([]byte); string(got) != string(body) {
+			kit.Failf("changed-in-transit", "one message object (%d bytes) sent twice over inproc (the sender kept a reference), each receiver overwriting what it received: delivery %d has %d bytes %q, sent were %q", sz, i+1, len(got), clip(string(got)), clip(string(body)))
+		}
+	}
+	kit.Count("second-copy-intact")
+	kit.Observe("%d %d", kind, sz)
+	kit.Must("Close", func() {
+		for _, s := range append(senders, receivers...) {
+			_ = s.Close()
+		}
+	})
+}
+
+func clip(s string) string {
+	if len(s) > 24 {
+		return s[:24] + "..."
+	}
+	return s
 }
 
 // checkOrder: got is a permutation of all sent messages in which each sender's own order is kept.
